@@ -401,6 +401,20 @@ func vfGenILSpec(idx int, seed uint64) vfSpec {
 	for i := 0; i < n; i++ {
 		sp.Streams = append(sp.Streams, vfStreamCfg{SID: uint16(i + 1), Dir: i % 2, NMsgs: 10 + r.Intn(25), SizeMode: []string{"mixed", "big", "small"}[r.Intn(3)], Reader: "fast", Unordered: r.Intn(4) == 0}) //nolint:gosec
 	}
+	// partially reliable streams under loss: the FORWARD-TSN kind must follow the negotiation as well
+	if r.Intn(2) == 0 {
+		for i := range sp.Streams {
+			if r.Intn(2) == 0 {
+				sp.Streams[i].RelType, sp.Streams[i].RelVal = ReliabilityTypeRexmit, uint32(r.Intn(2)) //nolint:gosec
+			}
+		}
+		if sp.Link.LossPm < 30 {
+			sp.Link.LossPm = r.Pick(30, 80, 150)
+		}
+		if sp.Link.HealUs == 0 {
+			sp.Link.HealUs = int64(r.Pick(10, 20)) * 1000000
+		}
+	}
 	il := sp.A.IL && sp.B.IL
 	sp.A.MaxMsg = vfEffMaxMsg(&sp.A, &sp.B, n, il)
 	sp.B.MaxMsg = vfEffMaxMsg(&sp.B, &sp.A, n, il)
